@@ -171,6 +171,46 @@ def record(run: Run, n_trees: int, flips: int) -> list[dict[str, Any]]:
     return evs
 
 
+def record_descriptor_route(run: Run, n_idx: int) -> list[dict[str, Any]]:
+    """Control blocks handed out by tr() descriptors (taproot_leaf_scripts / satisfy) at several indexes: 'check' events."""
+    from btclib.bip32.bip32 import derive, rootxprv_from_seed, xpub_from_xprv
+    from btclib.descriptors import parse
+    from btclib.to_pub_key import pub_keyinfo_from_key
+
+    r = random.Random(run.seed + 120)
+    evs: list[dict[str, Any]] = []
+    root = rootxprv_from_seed(r.randbytes(32))
+    acct = xpub_from_xprv(derive(root, "m/86h/0h/0h"))
+
+    def xo(path: str) -> str:
+        return pub_keyinfo_from_key(derive(acct, path))[0][1:].hex()
+
+    texts = {
+        "fixed": f"tr({xo('m/9/9')},{{pk({xo('m/8/8')}),pk({acct}/7/7)}})",
+        "ranged leaves": f"tr({xo('m/9/9')},{{pk({acct}/1/*),pk({acct}/2/*)}})",
+        "ranged internal key": f"tr({acct}/0/*,{{pk({acct}/1/*),{{pk({acct}/2/*),pk({acct}/3/*)}}}})",
+        "left comb": f"tr({acct}/0/*,{{{{pk({acct}/1/*),pk({acct}/2/*)}},pk({acct}/3/*)}})",
+    }
+    for name, text in texts.items():
+        try:
+            d = parse(text)
+        except Exception as e:  # noqa: BLE001
+            run.note(f"descriptor route: {name} not parsed ({type(e).__name__})")
+            continue
+        idxs = [0] if name == "fixed" else sorted({0, 1, 2, r.randrange(3, 1000), 2**31 - 1})[: n_idx]
+        for i in idxs:
+            try:
+                q = d.script_pub_key(i).script[2:]
+                leaf_scripts = d.taproot_leaf_scripts(i)
+            except Exception as e:  # noqa: BLE001
+                run.note(f"descriptor route: {name}@{i}: {type(e).__name__}")
+                continue
+            for control, (script, _version) in leaf_scripts.items():
+                evs.append({"op": "check", "tag": "descriptor", "why": f"tr() {name} @ index class {'0' if i == 0 else 'n'}", "q": q.hex(), "script": bytes(script).hex(),
+                            "control": bytes(control).hex(), "out": {"ok": True}})
+    return evs
+
+
 def check(run: Run) -> None:
     thorough = run.tier == "thorough"
     run.rule = ("internal keys in every accepted spelling and both parities x trees of 0..8 leaves (left combs, right combs, balanced, random; repeated "
@@ -184,6 +224,7 @@ def check(run: Run) -> None:
     for v in res.violations:
         raise tlc.TLCFailure(f"TaprootModel violates {v.name}:\n{v.text[:700]}")
     evs = record(run, 80 if thorough else 14, 40 if thorough else 6)
+    evs += record_descriptor_route(run, 5 if thorough else 3)
     for e in evs:
         if isinstance(e["out"], dict) and "foreign" in e["out"]:
             run.violation(f"taproot|{e['op']}|foreign|{e['out']['foreign'].split(':')[0]}", f"{e['op']} raised {e['out']['foreign']}", {"event": e})
@@ -196,6 +237,25 @@ def check(run: Run) -> None:
         run.violation(f"taproot|{e['op']}|{e.get('why', e.get('shape', '')).rstrip('0123456789 ')}|{e.get('tag', '')}",
                       f"{e['op']} ({e.get('why', e.get('shape', ''))}, {e.get('tag', '')}): btclib {str(e['out'])[:120]}, BIP341 gives {str(diag.get(k))[:120]}",
                       {"event": e, "spec": diag.get(k)})
+    # the engine's own use of the commitment: taproot script-path spends, honest and altered, all leaf versions
+    from . import c08
+
+    r8 = random.Random(run.seed + 128)
+    spends = []
+    for _ in range(400 if thorough else 80):
+        prog = r8.choice([b"\x51", b"\x51", b"\x52\x75\x51", b"\x00"])
+        spends.append(c08.tapscript_spend(r8, prog, [], ["P2SH", "TAPROOT", "WITNESS"] + (["DISCOURAGE_UPGRADABLE_TAPROOT_VERSION"] if r8.random() < 0.2 else []),
+                                          (2, 0, 0xFFFFFFFF)))
+    spends = [e for e in spends if not isinstance(e["ok"], str)]
+    res8, bad8, diag8 = events.validate("C08Trace", spends, batch=600)
+    for r in res8:
+        run.tlc(r, "V engine route (C08Trace)")
+    for k in bad8:
+        e = spends[k]
+        d = diag8.get(k) or {}
+        run.violation(f"taproot|engine|{e.get('why', '')}|{d.get('verdict', '?') if isinstance(d, dict) else '?'}|code={'accepts' if e['ok'] else 'refuses'}",
+                      f"verify_input on a taproot script-path spend ({e.get('why')}): btclib {'accepts' if e['ok'] else 'refuses'}, BIP341 gives {d}", {"event": e, "spec": d})
+    run.section("engine_route", {"spends": len(spends), "accepted": sum(1 for e in spends if e["ok"])})
     run.sample({k: (v if k != "tree" else "...") for k, v in evs2[0].items()})
     run.sample(next(e for e in evs2 if e["op"] == "check" and e["why"] != "honest"))
     run.section("ops", {op: sum(1 for e in evs2 if e["op"] == op) for op in ("output_pubkey", "output_prvkey", "control", "check")})
